@@ -7,6 +7,7 @@ import (
 	"fmt"
 	"io"
 	"io/fs"
+	"math"
 	"os"
 	"path/filepath"
 	"runtime"
@@ -31,10 +32,16 @@ const (
 
 	dotEntryIdentifier    = stringD1(byte(0))
 	dotDotEntryIdentifier = stringD1(byte(1))
+
+	// space for all files, the rest of 32-bit sector range is left for filesystem structures and padding
+	maxFilesSizeSectors int64 = math.MaxInt32 - 1<<24
 )
 
 // ErrNotDirectory occurs when root path for VirtualISO is not a directory
 var ErrNotDirectory = fmt.Errorf("not a directory")
+
+// ErrTooLarge occurs when directory content doesn't fit to ISO image (about 4TiB)
+var ErrTooLarge = fmt.Errorf("too large for an image")
 
 var paramSFOPath = filepath.Join("PS3_GAME", "PARAM.SFO")
 
@@ -265,6 +272,12 @@ func (viso *VirtualISO) scanDirectory() error {
 			if itemStat.IsDir() {
 				queue = append(queue, fullPath)
 				continue
+			}
+
+			// sector numbers (and volume size) are 32-bit, refuse what can't be described instead of wrapping
+			fileSectors := (itemStat.Size() + int64(sectorSize) - 1) / int64(sectorSize)
+			if itemStat.Size() < 0 || fileSectors > maxFilesSizeSectors-int64(viso.filesSizeSectors) {
+				return fmt.Errorf("item %s: %w", fullPath, ErrTooLarge)
 			}
 
 			fi := directoryFile{
